@@ -1358,6 +1358,8 @@ def make_combinators():
     def m_error_ctor(ex, st, args, callee, ty):
         if callee.endswith("::into") and args and isinstance(args[0], Adt) and args[0].ty == "Error":
             return args[0]  # PathError::kind(..).into(): keep the kind
+        if callee.endswith("::into") and args and isinstance(args[0], Adt) and not args[0].fields and args[0].variant is None and args[0].ty[:1].isupper():
+            return Adt("Error", None, args[0].ty.lower(), [])  # unit variant such as PathError::Empty
         parts = [x for x in strip_generics(callee).split("::") if x]
         return Adt("Error", None, parts[-1] if parts else "error", [])
 
